@@ -223,6 +223,150 @@ static Result check_area_random(const J &c)
   return r;
 }
 
+// ---------------------------------------------------------------- local (point-wise) min and max depth of an area feature
+// "the depth lies in the closed interval between its LOCAL min depth and max depth": both limits may be given as values at points.
+// Oracle: each limit is a number, the one-entry list form, or a tilted plane written as samples of one affine function at every
+// corner (plus, sometimes, at interior points): whatever triangulation is chosen reproduces the plane, so the local interval at
+// a point is known in closed form. Footprint: star polygon, points generated on rays from its kernel (inside / outside by
+// construction).
+static J gen_area_local_depth(Chooser &ch)
+{
+  g::Opt o;
+  g::Frame fr = g::gen_frame(ch, o);
+  J root = J::obj();
+  g::frame_to_json(fr, root);
+  g::Opt none; none.grains = false; none.velocity = false; none.custom_tags = false;
+  g::FM m;
+  const std::string type = ch.pick<std::string>({"continental plate", "oceanic plate", "mantle layer"});
+  J feat;
+  for (int attempt = 0; attempt < 20; ++attempt)
+    {
+      m = g::FM();
+      feat = g::area_feature(ch, fr, none, type, g::gen_centre(ch, fr), 0, m);
+      bool zero = false;
+      for (auto &p : m.coords) if (p[0] == 0 || p[1] == 0) zero = true; // listed finding C11: a value at a corner with a zero coordinate
+      if (!zero) break;
+    }
+  feat.erase("temperature models"); feat.erase("composition models"); feat.erase("min depth"); feat.erase("max depth");
+  double ext = 0;
+  for (auto &p : m.coords) ext = std::max(ext, std::max(std::fabs(p[0] - m.kernel[0]), std::fabs(p[1] - m.kernel[1])));
+  J c = J::obj();
+  // form of a limit: 0 absent, 1 number, 2 one-entry list [[v]], 3 plane at the corners, 4 plane at corners and interior points
+  auto limit = [&](const char *key, int form, double base, double amp, J &plane) {
+    plane = J::arr({J(base), J(0.0), J(0.0)});
+    if (form == 0) return;
+    if (form == 1) { feat[key] = base; return; }
+    if (form == 2) { feat[key] = J::arr({J::arr({J(base)})}); return; }
+    const double a = ch.real(-1, 1) * amp / (2 * ext), b = ch.real(-1, 1) * amp / (2 * ext);
+    plane = J::arr({J(base), J(a), J(b)});
+    auto f = [&](double x, double y) { return base + a * (x - m.kernel[0]) + b * (y - m.kernel[1]); };
+    std::vector<J> entries;
+    for (auto &p : m.coords) entries.push_back(J::arr({J(f(p[0], p[1])), J::arr({jp(p[0], p[1])})}));
+    if (form == 4)
+      {
+        const int ni = static_cast<int>(ch.range(1, 6));
+        for (int i = 0; i < ni; ++i)
+          {
+            const size_t e = ch.index(m.coords.size());
+            const auto &v0 = m.coords[e], &v1 = m.coords[(e + 1) % m.coords.size()];
+            const double s = ch.real(0.05, 0.95), t = ch.real(0.05, 0.85);
+            const double x = m.kernel[0] + t * (v0[0] + s * (v1[0] - v0[0]) - m.kernel[0]), y = m.kernel[1] + t * (v0[1] + s * (v1[1] - v0[1]) - m.kernel[1]);
+            entries.push_back(J::arr({J(f(x, y)), J::arr({jp(x, y)})}));
+          }
+        // the entries in any order (several points may also share one entry when their values agree - not generated: values differ)
+        for (size_t i = entries.size(); i > 1; --i) std::swap(entries[i - 1], entries[ch.index(i)]);
+      }
+    J sf = J::arr();
+    if (ch.chance(60)) sf.push(J::arr({J(base)})); // the bare default first (every corner is listed afterwards, so it never shows)
+    for (auto &e : entries) sf.push(e);
+    feat[key] = sf;
+  };
+  J pmin, pmax;
+  const int fmin = static_cast<int>(ch.range(0, 4)), fmax = ch.chance(8) ? 0 : static_cast<int>(ch.range(1, 4));
+  const double bmin = fmin == 0 ? 0.0 : ch.lattice(30e3, 90e3, 5e3);
+  limit("min depth", fmin, bmin, 25e3, pmin);   // the plane deviates from its base by at most the amplitude
+  limit("max depth", fmax, ch.lattice(200e3, 320e3, 10e3), 80e3, pmax);
+  indicator_models(feat);
+  root["features"] = J::arr({feat});
+  c["world"] = root.dump();
+  c["fmin"] = fmin; c["fmax"] = fmax;
+  c["pmin"] = pmin; c["pmax"] = pmax;
+  c["cx"] = m.kernel[0]; c["cy"] = m.kernel[1];
+  c["sph"] = fr.sph; c["R"] = fr.R; c["H"] = fr.H;
+  J qs = J::arr();
+  const int n = static_cast<int>(ch.range(10, 40));
+  for (int i = 0; i < n; ++i)
+    {
+      const size_t e = ch.index(m.coords.size());
+      const auto &v0 = m.coords[e], &v1 = m.coords[(e + 1) % m.coords.size()];
+      const double s = ch.real(0, 1);
+      const bool outside = ch.chance(12);
+      const double t = outside ? ch.real(1.02, 1.6) : (ch.chance(10) ? 0.0 : ch.real(0, 0.98));
+      const double x = m.kernel[0] + t * (v0[0] + s * (v1[0] - v0[0]) - m.kernel[0]), y = m.kernel[1] + t * (v0[1] + s * (v1[1] - v0[1]) - m.kernel[1]);
+      if (fr.sph && std::fabs(y) > 89) continue;
+      const double dx = x - m.kernel[0], dy = y - m.kernel[1];
+      const double zmin = pmin[0].num() + pmin[1].num() * dx + pmin[2].num() * dy;
+      const double zmax = fmax == 0 ? 400e3 : pmax[0].num() + pmax[1].num() * dx + pmax[2].num() * dy;
+      // depth: next to the local top, next to the local bottom (either side, 1 m .. 5 km away), between the smallest value of the
+      // whole surface and the local one, or anywhere
+      const int w = static_cast<int>(ch.range(0, 5));
+      const double off = ch.pick<double>({1.0, 30.0, 1e3, 5e3}) * (ch.flip() ? 1 : -1);
+      double depth;
+      if (w == 0) depth = zmin + off;
+      else if (w == 1) depth = zmax + off;
+      else if (w == 2) { const double lo = std::max(0.0, pmin[0].num() - 30e3); depth = zmin > lo ? ch.real(lo, zmin) : lo; }
+      else if (w == 3) depth = ch.real(zmax, zmax + 90e3);
+      else depth = ch.real(0, 420e3);
+      if (depth < 0) depth = 0;
+      J q = g::make_query(fr, x, y, depth);
+      q["outside"] = outside;
+      qs.push(q);
+    }
+  c["queries"] = qs;
+  return c;
+}
+
+static Result check_area_local_depth(const J &c)
+{
+  Result r;
+  const J root = J::parse(c.at("world").str());
+  auto W = make_world(c.at("world").str());
+  const J &feat = root.at("features")[0];
+  const int fmin = static_cast<int>(c.at("fmin").num()), fmax = static_cast<int>(c.at("fmax").num());
+  static const char *forms[5] = {"absent", "number", "one-entry list", "plane at the corners", "plane at corners and interior points"};
+  r.classes.push_back(feat.at("model").str());
+  r.classes.push_back(std::string("min depth: ") + forms[fmin]);
+  r.classes.push_back(std::string("max depth: ") + forms[fmax]);
+  r.classes.push_back(c.at("sph").boolean() ? "spherical" : "cartesian");
+  const J &pmin = c.at("pmin"), &pmax = c.at("pmax");
+  for (const auto &q : c.at("queries").a)
+    {
+      const double depth = q.at("depth").num();
+      const double dx = q.at("nat")[0].num() - c.at("cx").num(), dy = q.at("nat")[1].num() - c.at("cy").num();
+      const double zmin = pmin[0].num() + pmin[1].num() * dx + pmin[2].num() * dy;
+      const double zmax = fmax == 0 ? std::numeric_limits<double>::max() : pmax[0].num() + pmax[1].num() * dx + pmax[2].num() * dy;
+      const bool outside = q.at("outside").boolean();
+      // the planes are reproduced up to rounding of the barycentric interpolation: stay 1e-6 relative (a few decimetres) away
+      if (!outside && (std::fabs(depth - zmin) < 1e-6 * (1 + depth) || std::fabs(depth - zmax) < 1e-6 * (1 + depth))) { r.classes.push_back("on-a-limit(skipped)"); continue; }
+      const bool want = !outside && depth >= zmin && depth <= zmax;
+      const std::vector<double> out = W->properties(p3(q.at("p")), depth, {{{2, 0, 0}}, {{4, 0, 0}}});
+      const bool got = out[1] != -1;
+      r.inner++;
+      if (!outside) { r.inner_nt++; r.nontrivial = true; }
+      if (!outside && std::fabs(depth - zmin) <= 30) r.classes.push_back("within 30 m of the local min depth");
+      if (!outside && std::fabs(depth - zmax) <= 30) r.classes.push_back("within 30 m of the local max depth");
+      if ((out[0] == 1.0) != got)
+        return Result::fail("indicator-mismatch", "composition indicator " + fmt(out[0]) + " and tag " + fmt(out[1]) + " disagree; query " + q.dump());
+      if (want != got)
+        {
+          const char *sig = outside ? "local-depth-footprint" : (depth < zmin ? "local-min-depth-false-positive" : (depth > zmax ? "local-max-depth-false-positive" : "local-depth-false-negative"));
+          return Result::fail(sig, feat.at("model").str() + " with min depth " + (feat.has("min depth") ? feat.at("min depth").dump() : std::string("(absent)")) + " and max depth " + (feat.has("max depth") ? feat.at("max depth").dump() : std::string("(absent)")) +
+                              ": at " + q.at("nat").dump() + " the local interval is [" + fmt(zmin) + "," + fmt(zmax) + "], depth " + fmt(depth) + (outside ? " (outside the polygon)" : "") + ": definition says " + (want ? "inside" : "outside") + ", code says " + (got ? "inside" : "outside"));
+        }
+    }
+  return r;
+}
+
 // ---------------------------------------------------------------- plume
 static J gen_plume(Chooser &ch)
 {
@@ -346,6 +490,7 @@ int main(int argc, char **argv)
   {
     {"area_lattice", "single area feature on a lattice polygon (3..9 vertices, convex/concave, both orientations; spherical footprints written across and beyond +-180) x every lattice and half-lattice point of the enlarged box x depths {min, max, mid, just outside, neighbours of max}; exact integer oracle, boundary included in cartesian. Non-trivial: every case (comparisons counted separately)", 60, gen_area_lattice, check_area_lattice},
     {"area_random", "off-lattice polygons and points (half of them within 10% of an edge), long-double oracle with 1e-9 ambiguity band. Non-trivial: point inside", 150, gen_area_random, check_area_random},
+    {"area_local_depth", "single area feature (all three types, both coordinate systems, star polygon) whose min and max depth are each absent / a number / the one-entry list / a tilted plane given at every corner / the same plane also given at 1..6 interior points in any order; points on rays from the kernel (88% inside the polygon) at depths next to the local top and bottom (1 m .. 5 km to either side), between the surface's extreme value and the local one, or anywhere; oracle: closed-form local interval of the statement. Non-trivial: point inside the polygon", 150, gen_area_local_depth, check_area_local_depth},
     {"plume", "plumes with 1..5 cross sections (axis 0 at the deepest section in 12%, rotation pairs straddling 0/360 in both senses, head / no head) x 10..60 points per depth class; oracle: interpolated ellipse / half-ellipsoid of the statement with 1e-9 band. Non-trivial: point inside", 150, gen_plume, check_plume},
   });
 }
